@@ -18,6 +18,7 @@ package main
 
 import (
 	"bytes"
+	"regexp"
 	"flag"
 	"fmt"
 	"go/ast"
@@ -534,7 +535,7 @@ func main() {
 	collect(parse(filepath.Join(dir, "HyperLogLog.go")))
 	collect(parse(filepath.Join(dir, "MurmurHash.go")))
 
-	fmt.Fprintf(&out, "-- generated by xlate/c14 from %s/util/hll — do not edit\nimport Golib.HLL.SrcProg\nimport Golib.HLL.SrcHash\n\nnamespace Gen.C14\nopen HLL.Src\n\n", "<repo>")
+	fmt.Fprintf(&out, "-- generated by xlate/c14 from %s/util/hll — do not edit\nimport Golib.HLL.SrcProg\nimport Golib.HLL.SrcHash\nimport Golib.HLL.SrcObj\n\nnamespace Gen.C14\nopen HLL.Src\n\n", "<repo>")
 
 	// constants
 	for _, c := range []string{"LOG2_BITS_PER_WORD", "REGISTER_SIZE"} {
@@ -832,6 +833,9 @@ func main() {
 	def("murmurLong", "Ex", symExec(funcs["MurmurHashLong"]))
 	def("murmur32", "Ex", symExec(funcs["MurmurHash"]))
 
+	def("mergeProg", "List MStep", objProg(funcs["HyperLogLog.Merge"]))
+	def("addAllProg", "List MStep", objProg(funcs["HyperLogLog.AddAll"]))
+
 	def("getBytesProg", "List WStep", writerProg(funcs["HyperLogLog.GetBytes"]))
 	def("buildProg", "List RStep", readerProg(funcs["BuildHyperLogLog"]))
 
@@ -876,6 +880,15 @@ func skeleton(fd *ast.FuncDecl) string {
 	if fd == nil {
 		return "[" + q("function not found") + "]"
 	}
+	var qs []string
+	for _, l := range skeletonLines(fd) {
+		qs = append(qs, q(l))
+	}
+	return "[" + strings.Join(qs, ",\n   ") + "]"
+}
+
+// skeletonLines: the normalised statements (count guards taken out)
+func skeletonLines(fd *ast.FuncDecl) []string {
 	ren := map[string]string{}
 	if fd.Recv != nil && len(fd.Recv.List) == 1 && len(fd.Recv.List[0].Names) == 1 {
 		ren[fd.Recv.List[0].Names[0].Name] = "recv"
@@ -937,9 +950,9 @@ func skeleton(fd *ast.FuncDecl) string {
 			guards = append(guards, fd.Name.Name+": "+renameIdents(txt, ren))
 			continue
 		}
-		lines = append(lines, q(renameIdents(txt, ren)))
+		lines = append(lines, renameIdents(txt, ren))
 	}
-	return "[" + strings.Join(lines, ",\n   ") + "]"
+	return lines
 }
 
 func renameIdents(src string, ren map[string]string) string {
@@ -1320,4 +1333,62 @@ func symExec(fd *ast.FuncDecl) string {
 		}
 	}
 	return unknown("no return")
+}
+
+// ---------------------------------------------------------------- counter-level methods (interpreted in Lean)
+
+var (
+	reNewLike   = regexp.MustCompile(`^(v\d+) := NewHyperLogLog\(recv\.log2m, NewRegisterSet\(recv\.registerSet\.Count\)\)$`)
+	reAddAll    = regexp.MustCompile(`^(v\d+)\.AddAll\((recv|v\d+)\)$`)
+	reRetIfNil  = regexp.MustCompile(`^if (p\d+) == nil \{; return (v\d+); \}$`)
+	reForAlias  = regexp.MustCompile(`^for _, (v\d+) := range (p\d+) \{; (v\d+) := (v\d+); (v\d+)\.AddAll\((v\d+)\); \}$`)
+	reForDirect = regexp.MustCompile(`^for _, (v\d+) := range (p\d+) \{; (v\d+)\.AddAll\((v\d+)\); \}$`)
+	reRet       = regexp.MustCompile(`^return (v\d+)$`)
+	rePanicSize = regexp.MustCompile(`^if recv\.Sizeof\(\) != (p\d+)\.Sizeof\(\) \{; panic\(".*"\); \}$`)
+	reMergeRegs = regexp.MustCompile(`^recv\.registerSet\.Merge\((p\d+)\.registerSet\)$`)
+)
+
+// objProg maps every (normalised) statement of Merge / AddAll to a step of HLL.Src.MStep
+func objProg(fd *ast.FuncDecl) string {
+	if fd == nil {
+		return "[.unknown " + q("function not found") + "]"
+	}
+	sk := skeletonLines(fd)
+	var steps []string
+	for _, ln := range sk {
+		switch {
+		case reNewLike.MatchString(ln):
+			m := reNewLike.FindStringSubmatch(ln)
+			steps = append(steps, ".newLike "+q(m[1]))
+		case reAddAll.MatchString(ln):
+			m := reAddAll.FindStringSubmatch(ln)
+			steps = append(steps, ".addAll "+q(m[1])+" "+q(m[2]))
+		case reRetIfNil.MatchString(ln):
+			m := reRetIfNil.FindStringSubmatch(ln)
+			steps = append(steps, ".retIfNil "+q(m[1])+" "+q(m[2]))
+		case reForAlias.MatchString(ln):
+			m := reForAlias.FindStringSubmatch(ln)
+			if m[4] == m[1] && m[6] == m[3] { // y := x; dst.AddAll(y)
+				steps = append(steps, ".forAddAll "+q(m[2])+" "+q(m[5]))
+			} else {
+				steps = append(steps, ".unknown "+q(ln))
+			}
+		case reForDirect.MatchString(ln):
+			m := reForDirect.FindStringSubmatch(ln)
+			if m[4] == m[1] {
+				steps = append(steps, ".forAddAll "+q(m[2])+" "+q(m[3]))
+			} else {
+				steps = append(steps, ".unknown "+q(ln))
+			}
+		case reRet.MatchString(ln):
+			steps = append(steps, ".ret "+q(reRet.FindStringSubmatch(ln)[1]))
+		case rePanicSize.MatchString(ln):
+			steps = append(steps, ".panicUnlessSameSize "+q(rePanicSize.FindStringSubmatch(ln)[1]))
+		case reMergeRegs.MatchString(ln):
+			steps = append(steps, ".mergeRegisters "+q(reMergeRegs.FindStringSubmatch(ln)[1]))
+		default:
+			steps = append(steps, ".unknown "+q(ln))
+		}
+	}
+	return "[" + strings.Join(steps, ",\n   ") + "]"
 }
